@@ -107,9 +107,21 @@ func c01Gen(rt *rapid.T) wProg {
 			} else {
 				p.Ops = append(p.Ops, par...)
 			}
-		case x < 61:
+		case x < 59:
 			s := rapid.IntRange(0, len(p.Sess)-1).Draw(rt, "s")
 			p.Ops = append(p.Ops, wOp{K: "leave", S: s, T: gTopicFor(rt, p.Sess[s], false)})
+		case x < 61:
+			// one participant deletes the P2P subscription, the topic is unloaded, loaded back by a
+			// new {sub} and numbering goes on (the topic row exists, one subscription is missing)
+			s := rapid.IntRange(0, len(p.Sess)-1).Draw(rt, "s")
+			if u := p.Sess[s]; u <= 1 {
+				pt := fmt.Sprintf("p%d", 1-u)
+				p.Ops = append(p.Ops, wOp{K: "leave", S: s, T: pt, F: true}, wOp{K: "reload", T: "p1"})
+				if gPct(rt, 50) {
+					p.Ops = append(p.Ops, wOp{K: "restart"})
+				}
+				p.Ops = append(p.Ops, wOp{K: "sub", S: s, T: pt}, wOp{K: "pub", S: s, T: pt})
+			}
 		case x < 68:
 			s := rapid.IntRange(0, len(p.Sess)-1).Draw(rt, "s")
 			op := wOp{K: "sub", S: s, T: gTopicFor(rt, p.Sess[s], false)}
